@@ -128,6 +128,7 @@ def _shard(task):
                 st['harness'].append({'case': case, 'error': herr})
             return
         st['evals'] += 1
+        st['units'] = st.get('units', 0) + out.units
         h = core.case_hash(case)
         st['distinct'].add(h)
         for lab in out.labels:
@@ -295,6 +296,7 @@ def main(argv=None):
         ps['distinct_nontrivial'] |= {st['sub'] + h for h in st['nt']}
         ps['skipped_after_budget'] += st['skipped']
         agg['evals'] += st['evals']
+        agg['units'] = agg.get('units', 0) + st.get('units', 0)
         agg['skipped'] += st['skipped']
         agg['nt'] |= {st['sub'] + h for h in st['nt']}
         agg['distinct'] |= {st['sub'] + h for h in st['distinct']}
@@ -373,6 +375,7 @@ def main(argv=None):
         'evaluations': agg['evals'],
         'distinct_nontrivial': len(agg['nt']),
         'distinct_cases': len(agg['distinct']),
+        'inner_executions': agg.get('units', 0),
         'rule': getattr(mod, 'RULE', ''),
         'samples': samples,
         'per_sub': per_sub,
